@@ -586,7 +586,10 @@ func (r *Run) havocAllKeepingLocals(st *State, fr *Frame, args []*Val) {
 			if l.Sort == SInt {
 				escaped[l.String()] = true
 				if ci, ok := st.closure[l.String()]; ok {
-					for _, b := range ci.bindings {
+					for i, b := range ci.bindings {
+						if i < len(ci.fn.FreeVars) && !closureWrites(ci.fn, ci.fn.FreeVars[i], 0) {
+							continue
+						}
 						mark(b, depth+1)
 					}
 				}
